@@ -64,10 +64,6 @@ def walk(obj, out_bytes, out_strs, seen, depth=0):
     for klass in type(obj).__mro__:
         names.extend(getattr(klass, "__slots__", ()) if not isinstance(getattr(klass, "__slots__", ()), str)
                      else [klass.__slots__])
-        # class-level containers (caches) are part of what the object can reach
-        for k, v in vars(klass).items():
-            if isinstance(v, (dict, list, set)) and not k.startswith("__"):
-                walk(v, out_bytes, out_strs, seen, depth + 1)
     names.extend(getattr(obj, "__dict__", {}).keys())
     for nme in names:
         try:
